@@ -63,12 +63,9 @@ def bhjmSphere (f : Field) (diameter : α) (pol x : V3 α) : V3 α :=
     | .B => b
     | _ => vd (if out then b else b - pol) mu0
 
-/-- `current_polyline_Hfield` for one segment p1→p2 (p1 ≠ p2), observer off the carrier line -/
-def segmentH (cur : α) (p1 p2 po : V3 α) : V3 α :=
-  let n12 := norm (p1 - p2)
-  let p1 := vd p1 n12
-  let p2 := vd p2 n12
-  let po := vd po n12
+/-- dimensionless part of `current_polyline_Hfield` (after division by the segment length):
+returns (deltaSin, distance from the carrier line, field direction) -/
+def segmentCore (p1 p2 po : V3 α) : α × α × V3 α :=
   let t := V3.dot (po - p1) (p1 - p2)
   let p4 := p1 + vs t (p1 - p2)
   let no4 := norm (po - p4)
@@ -83,7 +80,13 @@ def segmentH (cur : α) (p1 p2 po : V3 α) : V3 α :=
   let mask2 := lt (n 1) n41 && lt n42 n41
   let mask3 := lt (n 1) n42 && lt n41 n42
   let dS := if mask2 then abs (s1 - s2) else if mask3 then abs (s2 - s1) else abs (s1 + s2)
-  vs (dS / no4 / n12 * cur / (n 4 * pi)) eB
+  (dS, no4, eB)
+
+/-- `current_polyline_Hfield` for one segment p1→p2 (p1 ≠ p2), observer off the carrier line -/
+def segmentH (cur : α) (p1 p2 po : V3 α) : V3 α :=
+  let n12 := norm (p1 - p2)
+  let c := segmentCore (vd p1 n12) (vd p2 n12) (vd po n12)
+  vs (c.1 / c.2.1 / n12 * cur / (n 4 * pi)) c.2.2
 
 /-! ### mask dispatch of the magnet wrappers; `core` is the closed-form core function's value -/
 
